@@ -19,7 +19,7 @@ RULE = ('Cases: an ancestor of 1..3 contigs (a few per run of 45..200 kb with th
 ASSUMPTIONS = ['the planted truth is the oracle; no model of ska is involved',
                'uniqueness is required over the union of samples, see DESIGN.md section 8']
 REQUIRED = {t: ['route:skf', 'route:fasta', 'sites_at_min_gap', 'sites_at_min_end', 'multi_contig', 'contigs_of_length_k_or_k+1', 'parallel_build_path',
-                'names_not_in_sorted_order', 'output_to_existing_longer_file', 'cases_with_1024+_sites', 'cases_with_lower_case_stretches', 'cases_with_windowless_contigs_among_the_records'] for t in ('quick', 'thorough')}
+                'names_not_in_sorted_order', 'output_to_existing_longer_file', 'cases_with_1024+_sites', 'cases_with_lower_case_stretches', 'cases_with_windowless_contigs_among_the_records', 'samples_spread_over_two_files', 'parallel_builds_with_two_file_samples'] for t in ('quick', 'thorough')}
 
 
 def builds(tier):
@@ -131,6 +131,7 @@ def run_case(desc, ctx):
         res.count('names_not_in_sorted_order')
     lower_used = False
     short_used = False
+    file_recs = []
     for i, s in enumerate(ss):
         order = list(range(len(s)))
         rng.shuffle(order)
@@ -147,6 +148,20 @@ def run_case(desc, ctx):
             recs[j_] = recs[j_][:a_] + recs[j_][a_:b_].lower() + recs[j_][b_:]
             lower_used = True
         files.append(G.write_fa(ctx.path(names_exp[i] + '.fa'), recs, wrap=rng.choice([0, 0, 60])))
+        file_recs.append(recs)
+    # a third of the stored files are built from a file list in which samples with several contigs are spread over two FASTA files
+    listfile = None
+    if desc['route'] == 'skf' and desc['seed'] % 3 == 0:
+        lines_ = []
+        for i, recs in enumerate(file_recs):
+            if len(recs) >= 2:
+                c_ = rng.randint(1, len(recs) - 1)
+                lines_.append('%s\t%s\t%s\n' % (names_exp[i], G.write_fa(ctx.path(names_exp[i] + '_a.fa'), recs[:c_]), G.write_fa(ctx.path(names_exp[i] + '_b.fa'), recs[c_:])))
+            else:
+                lines_.append('%s\t%s\n' % (names_exp[i], files[i]))
+        if any(l.count('\t') == 2 for l in lines_):
+            listfile = ctx.write('samples.list', ''.join(lines_))
+            res.count('samples_spread_over_two_files')
     to_file = rng.random() < 0.3
     if lower_used:
         res.count('cases_with_lower_case_stretches')
@@ -156,6 +171,8 @@ def run_case(desc, ctx):
     res.see('threads', threads)
     if ns >= 10 and threads > 1:
         res.count('parallel_build_path')
+        if listfile:
+            res.count('parallel_builds_with_two_file_samples')
     exp = sorted(M.canon_col(c) for c in truth)
     res.count('route:' + desc['route'])
     res.see('k', k)
@@ -164,7 +181,7 @@ def run_case(desc, ctx):
         b = ctx.bins[variant]
         if desc['route'] == 'skf':
             oname = 'o' if desc['seed'] % 4 else 'run.k%d' % k            # a quarter of the stored files carry a dot in their prefix
-            p = G.ska_build(ctx, ctx.path(oname), files, k, True, binary=b, extra=['--threads', threads])
+            p = G.ska_build(ctx, ctx.path(oname), ['-f', listfile] if listfile else files, k, True, binary=b, extra=['--threads', threads])
             if p.returncode != 0:
                 if variant == 'chk' and 'overflow' in p.stderr:
                     res.count('chk_overflow_panics')
